@@ -218,6 +218,17 @@ func (j *c03Judge) judge(op *world.Op, res *world.Result, preCluster map[string]
 			return j.fail("C03:previously-deployed-revision-became-"+st+"/"+ctx, hs)
 		}
 	}
+	// 3b. a rollback that its pre-rollback hook stopped has not touched any resource: the deployed revision is still the
+	// one that is running and keeps its status
+	if op.Kind == "rollback" && phase == "pre-hook" && !secondary && len(preDep) == 1 {
+		if p, ok := postSet[preDep[0]]; !ok || p.Status != "deployed" {
+			st := "deleted"
+			if ok {
+				st = p.Status
+			}
+			return j.fail("C03:deployed-revision-became-"+st+"-although-the-rollback-was-stopped-before-touching-anything/"+ctx, hs)
+		}
+	}
 	// 4. cleanup-on-fail: resources this upgrade newly created are deleted again
 	if op.Kind == "upgrade" && op.CleanupOnFail {
 		for _, e := range res.Events {
